@@ -33,6 +33,7 @@ Results (all for every `cfg`, `e`, every `op` with `OpOK op`, every `s` with `WF
   frameOracle_sound    (no typing needed) `frameOracle op (obsOfModel s) (obsOfModel s') = none`
   boundsOracle_sound   `WFx s → boundsOracle (obsOfModel s) = none`   (state predicate; `stateOracles_step_sound`)
   uniqOracle_sound     `WFx s → uniqOracle s (obsOfModel s) = none`   (state predicate; `stateOracles_step_sound`)
+  tryMutOracle_sound   the model's `try_into_mut` agrees with the model's `is_unique` on the pre-state (no hypothesis)
   lenCapOracle_sound   `WFx s → lenCapOracle (obsOfModel s) = none`   (state predicate; `lenCapOracle_step_sound`,
                        `boundsLenCap_sound` for the combined check of `judgeBlock`)
 
@@ -1523,6 +1524,63 @@ example : Core.step cfgD envE (.unsplit 0 1) {} = .panic {} := rfl
 
 end Witness
 
+
+/-! ## `tryMutOracle` (C08: try_into_mut succeeds exactly when is_unique is true) -/
+
+theorem tryMutOracle_other {op : Op} (h : ∀ i, op ≠ .tryIntoMut i) (out : Outc) (pre : List Obs) :
+    tryMutOracle op out pre = none := by
+  cases op <;> first | rfl | exact absurd rfl (h _)
+
+/-- **`tryMutOracle` is sound**: in the model `try_into_mut` succeeds exactly when `is_unique`, asked
+on the same handle in the state before the call, answers true. -/
+theorem tryMutOracle_sound (cfg : Cfg) (e : Env) (op : Op) (s : St) :
+    match Core.step cfg e op s with
+    | .ok v _ => tryMutOracle op (.ok v) (obsOfModel s) = none
+    | .panic _ => tryMutOracle op .panic (obsOfModel s) = none
+    | .ub _ _ => True := by
+  cases hst : Core.step cfg e op s with
+  | ub w s' => trivial
+  | panic s' => cases op <;> rfl
+  | ok v s' =>
+    show tryMutOracle op (.ok v) (obsOfModel s) = none
+    by_cases hop : ∃ i, op = .tryIntoMut i
+    · obtain ⟨i, rfl⟩ := hop
+      rcases getHandle_cases s i with ⟨h, hi, hg⟩ | ⟨_, hg⟩
+      · simp only [Core.step, bind_apply, hg] at hst
+        have hobs : (findObs (obsOfModel s) i).bind (·.uniq) =
+            (match bytesIsUnique h s with | .ok b _ => some b | _ => none) := by
+          rw [findObs_live hi]
+          cases h <;> rfl
+        cases hu : bytesIsUnique h s with
+        | ok b s1 =>
+          rw [hu] at hst hobs
+          cases b with
+          | true =>
+            simp only [if_true, bind_apply] at hst
+            cases hm : bytesIntoMut cfg e h s1 with
+            | ok m s2 =>
+              rw [hm] at hst
+              simp only [setHandle_apply, pure_apply, R.ok.injEq] at hst
+              obtain ⟨rfl, _⟩ := hst
+              simp only [tryMutOracle, hobs]
+            | panic s2 => rw [hm] at hst; cases hst
+            | ub w s2 => rw [hm] at hst; cases hst
+          | false =>
+            simp only [pure_apply, R.ok.injEq, Bool.false_eq_true, if_false] at hst
+            obtain ⟨rfl, _⟩ := hst
+            simp only [tryMutOracle, hobs]
+        | panic s1 => rw [hu] at hst; cases hst
+        | ub w s1 => rw [hu] at hst; cases hst
+      · simp only [Core.step, bind_apply, hg] at hst; cases hst
+    · exact tryMutOracle_other (fun i hi => hop ⟨i, hi⟩) _ _
+
+
+/-- the oracle is not vacuous: it fires on a success after `is_unique = false` and on a refusal after
+`is_unique = true` -/
+example : (tryMutOracle (.tryIntoMut 0) (.ok (.handle 0))
+    [{ id := 0, kind := .bytes, blk := none, wild := false, len := 0, cap := none, uniq := some false, contents := "" }]).isSome = true := by decide
+example : (tryMutOracle (.tryIntoMut 0) (.ok (.err 0))
+    [{ id := 0, kind := .bytes, blk := none, wild := false, len := 0, cap := none, uniq := some true, contents := "" }]).isSome = true := by decide
 
 /-! ## why `locate` checks `off ≤ size` (a remark on `obsOfModel`, not on the oracles)
 
